@@ -3,6 +3,11 @@
   `{"cmd": …, "carrier": "rat" | "float", …}`; unknown or malformed lines answer `{"bad-op": …}`.
 -/
 import SysLoss.Driver.Sys
+import SysLoss.Driver.Hist
+import SysLoss.Driver.Doc
+import SysLoss.Driver.Diag
+import SysLoss.Driver.Batt
+import SysLoss.Driver.Probe
 
 open Lean SysLoss
 
@@ -12,6 +17,11 @@ def dispatch (j : Json) : Json :=
   match cmd with
   | "cert" => if fl then cmdCert (α := Float) j else cmdCert (α := Rat) j
   | "run" => if fl then cmdRun (α := Float) j else cmdRun (α := Rat) j
+  | "hist" => cmdHist j            -- edit / configuration / analysis histories (C14–C17)
+  | "doc" | "toml" => cmdDoc j     -- save / from_file documents, TOML component files (C12, C13)
+  | "diag" => cmdDiag j            -- diagram structure (C19)
+  | "batt" => cmdBatt j            -- battery-life loop (C18)
+  | "interp" | "ctor" => cmdProbe j  -- interpolators and constructors (C10, C11)
   | "ping" => Json.mkObj [("ok", true)]
   | _ => Json.mkObj [("bad-op", cmd)]
 
